@@ -38,7 +38,8 @@ COMPONENTS = {
 }
 
 KINDS = ['parse_message', 'parse_message', 'parse_segment', 'parse_segment', 'parse_field', 'parse_component',
-         'factory', 'factory', 'build', 'build', 'segment_build', 'segment_build', 'component_add_sub', 'field_dt']
+         'factory', 'factory', 'build', 'build', 'segment_build', 'segment_build', 'component_add_sub', 'field_dt',
+         'parse_segment_surplus', 'build_attach']
 
 
 def required_probes(tier):
